@@ -315,3 +315,42 @@ func (c *Check) writeEvidence(nOK, nFail, nKnown, nAdv int, perRule map[string][
 	os.MkdirAll(filepath.Join(verifDir(), "evidence"), 0o755)
 	os.WriteFile(filepath.Join(verifDir(), "evidence", c.ID+".json"), b, 0o644)
 }
+
+// subCheckCache holds the obligations of checks evaluated as a source of shared rules (per loaded program).
+var subCheckCache = map[string][]Obligation{}
+
+// importObs evaluates check `from` on the same program (once per program) and copies the obligations of rule
+// `fromRule` (full name, e.g. "C19.2/truncation-rejected") that satisfy keep (nil = all) into c under rule `as`
+// (short name). A rule shared between properties is a necessary condition of each of them; it is evaluated by the
+// same code and reported under each property that needs it. Returns the number of obligations imported.
+func importObs(c *Check, from, fromRule, as string, keep func(o Obligation) bool) int {
+	ck := fmt.Sprintf("%p|%s|%s", c.P, from, c.Tier)
+	obs, ok := subCheckCache[ck]
+	if !ok {
+		sub := NewCheck(from, c.Tier, c.P)
+		saved := walkerTruncations
+		func() {
+			defer func() {
+				if r := recover(); r != nil {
+					sub.Undecided("E0/panic", "analyser", "-", fmt.Sprintf("analyser panic in shared rule source %s: %v", from, r))
+				}
+			}()
+			registry[from](sub)
+		}()
+		walkerTruncations = saved
+		obs = sub.Obs
+		subCheckCache[ck] = obs
+	}
+	n := 0
+	for _, o := range obs {
+		if o.Rule != fromRule && !(strings.HasPrefix(o.Rule, from+".E0/")) {
+			continue
+		}
+		if o.Rule == fromRule && keep != nil && !keep(o) {
+			continue
+		}
+		n++
+		c.Obs = append(c.Obs, Obligation{Rule: c.ID + "." + as, Key: o.Key, Pos: o.Pos, Status: o.Status, Msg: o.Msg, Detail: o.Detail})
+	}
+	return n
+}
